@@ -53,6 +53,8 @@ class BaseRequest:
             todelete = ('forms', 'files', 'params', 'post', 'json', 'body', 'body.error')
         elif key == 'QUERY_STRING':
             todelete = ('query', 'params')
+        elif key == 'CONTENT_LENGTH':
+            todelete = ('content_length',)
         elif key.startswith('HTTP_'):
             todelete = ('headers', 'cookies')
         env = request.environ
